@@ -408,10 +408,24 @@ class Kernel(Module):
             new_kernel.__getattr__(buffr_name).data = buffr.expand(new_buffer_shape)
 
         # Recurse, if necessary
-        for sub_module_name, sub_module in self.named_sub_kernels():
-            new_kernel.__setattr__(sub_module_name, sub_module.expand_batch(new_batch_shape))
+        self._replace_sub_kernels(new_kernel, lambda sub_kernel: sub_kernel.expand_batch(new_batch_shape))
 
         return new_kernel
+
+    def _replace_sub_kernels(self, new_kernel: Kernel, fn: Callable[[Kernel], Kernel]) -> None:
+        """
+        Applies `fn` to every outermost sub-kernel of `self` and installs the result at the same place in
+        `new_kernel` (a copy of `self`). Sub-kernels are addressed by their module path (`base_kernel`, `kernels.0`):
+        the entry of a container such as a ModuleList has to be replaced inside that container.
+        """
+        replaced = []
+        for sub_module_name, sub_module in self.named_sub_kernels():
+            if any(sub_module_name.startswith(prefix + ".") for prefix in replaced):
+                continue  # `fn` recurses into the sub-kernels of a sub-kernel itself
+            replaced.append(sub_module_name)
+            parent_name, _, child_name = sub_module_name.rpartition(".")
+            parent = new_kernel.get_submodule(parent_name) if parent_name else new_kernel
+            parent.__setattr__(child_name, fn(sub_module))
 
     def named_sub_kernels(self) -> Iterable[Tuple[str, Kernel]]:
         """
@@ -604,8 +618,7 @@ class Kernel(Module):
             new_batch_shape_len = len(self.batch_shape) - ndim_removed
             new_kernel.batch_shape = new_buffr.shape[:new_batch_shape_len]
 
-        for sub_module_name, sub_module in self.named_sub_kernels():
-            new_kernel.__setattr__(sub_module_name, sub_module.__getitem__(index))
+        self._replace_sub_kernels(new_kernel, lambda sub_kernel: sub_kernel.__getitem__(index))
 
         if not any(True for _ in self.named_parameters(recurse=False)) and not any(
             name != "active_dims" for name, _ in self.named_buffers(recurse=False)
@@ -655,6 +668,9 @@ class AdditiveKernel(Kernel):
         new_kernel = deepcopy(self)
         for i, kernel in enumerate(self.kernels):
             new_kernel.kernels[i] = kernel.__getitem__(index)
+        if len(self._batch_shape):
+            # a batch shape of its own (given by expand_batch) is indexed like the component kernels'
+            new_kernel._batch_shape = torch.empty(*self._batch_shape, 0)[index].shape[:-1]
 
         return new_kernel
 
@@ -712,5 +728,8 @@ class ProductKernel(Kernel):
         new_kernel = deepcopy(self)
         for i, kernel in enumerate(self.kernels):
             new_kernel.kernels[i] = kernel.__getitem__(index)
+        if len(self._batch_shape):
+            # a batch shape of its own (given by expand_batch) is indexed like the component kernels'
+            new_kernel._batch_shape = torch.empty(*self._batch_shape, 0)[index].shape[:-1]
 
         return new_kernel
